@@ -152,6 +152,8 @@ def run(report, index, tier):
                  't_%s differs from the ES5 definition on %r' % (
                      name, alpha.word(w) if w else ''),
                  where='lexers/es5.py:t_%s' % name)
+    from .litlang import literal_rule
+    literal_rule(report, index, M, 'R06.5')
     # R06.3 ---------------------------------------------------------------
     r3 = report.rule('R06.3', 'ordered choice == longest match; keywords '
                      'exact', floor=1000)
@@ -255,6 +257,11 @@ def line_index_rule(report, index, rid, LA=None):
         ('\r\n\r\n', 3, [5, 7], 2),
         ('x y ', 0, [2, 4], 2),
         ('\n', 7, [8], 1),
+        # characters Python's str.splitlines treats as line boundaries
+        # but ES5 7.3 does not
+        ('"a\x0cb"', 3, [], 0),
+        ('/*\x0b\x1c\x1d\x1e\x85*/', 0, [], 0),
+        ('"\x85\n"', 2, [5], 1),
     ]
     for value, lexpos, want_idx, want_lines in cases:
         lexer = Obj('Lexer', newline_idx=[0],
@@ -274,6 +281,46 @@ def line_index_rule(report, index, rid, LA=None):
                  'records line starts %r, expected offsets %r and %d new '
                  'line(s)' % (got, want_idx, want_lines),
                  where='lexers/es5.py:_update_newline_idx')
+    # every token whose rule can match a line terminator passes through
+    # the line index: get_lexer_token is evaluated once per such type
+    lt_atoms = set()
+    for ch in '\n\r\u2028\u2029':
+        lt_atoms.add(alpha.atom_of_char(ch))
+    multiline = set()
+    for rule in lm.rules:
+        d = LA.dfa(rule)
+        live = d.live()
+        reach = d.reachable()
+        if any(a in lt_atoms and q in reach and t in live
+               for q, tr in enumerate(d.trans) for a, t in tr.items()):
+            multiline.add(rule.type)
+    if 'LINE_TERMINATOR' not in multiline or 'BLOCK_COMMENT' not in \
+            multiline:
+        raise AnalysisError('token rules that can span lines: %s' % sorted(
+            multiline))
+    for ttype in sorted(multiline):
+        lexer = Obj('Lexer', newline_idx=[0], last_newline_lexpos=0,
+                    lexer=Obj('PlyLexer', lineno=1))
+        tok = Obj('LexToken', type=ttype, value='a\nb', lexpos=4, lineno=1)
+        lexer.lexer.token = ('pyfunc', lambda tok=tok: tok)
+        ev = Evaluator(mod, 'Lexer', methods, {
+            'zip': zip, 'iter': iter, 'len': len})
+        try:
+            ret, _ = ev.call(glt, [], self_obj=lexer)
+            got = (ret is tok, lexer.newline_idx[1:],
+                   lexer.lexer.lineno - 1,
+                   tok.colno if tok.has('colno') else None)
+        except (Raised, AnalysisError) as e:
+            got = 'error: %s' % e
+        r4.check(got == (True, [6], 1, 5),
+                 'get_lexer_token(%s spanning a line)' % ttype,
+                 'get_lexer_token() for a %s token containing a line '
+                 'terminator' % ttype,
+                 'the %s rule can match a line terminator, but after '
+                 'get_lexer_token the line index is %r (expected the token '
+                 'returned, line start [6], one new line, column 5): every '
+                 'later line:column is wrong' % (ttype, got),
+                 where='lexers/es5.py:get_lexer_token')
     gc = need_function(mod, '_get_colno_lexpos', 'Lexer')
     for last, lexpos, want in ((0, 0, 1), (0, 5, 6), (12, 12, 1),
                                (12, 20, 9)):
